@@ -19,7 +19,7 @@ Has_(r, f) == f \in DOMAIN r
 RatOf(x) == Norm(x[1], x[2])
 
 \* logged inputs of an Eval event
-CompsOf(e) == e.comps
+EvComps(e) == e.comps
 FacOf(e) == e.fac
 KOf(e) == RatOf(e.kexp)
 AOf(e) == RatOf(e.area)
@@ -70,8 +70,8 @@ InUnit(e, v) == IF e.p >= e.q THEN v * Pow10(e.p - e.q)
                 ELSE (v + (Pow10(e.q - e.p) \div 2)) \div Pow10(e.q - e.p)
 CompSum(e, P(_), t) == ISumSet(LAMBDA i : InUnit(e, e.comps[i].v[t]), {i \in 1..Len(e.comps) : P(e.comps[i])})
 
-SpecOutcome(e) == Outcome(CompsOf(e), FacOf(e), KOf(e), AOf(e), e.lm, e.N)
-SpecResult(e) == Evaluate(CompsOf(e), FacOf(e), KOf(e), AOf(e), e.lm, e.N)
+SpecOutcome(e) == Outcome(EvComps(e), FacOf(e), KOf(e), AOf(e), e.lm, e.N)
+SpecResult(e) == Evaluate(EvComps(e), FacOf(e), KOf(e), AOf(e), e.lm, e.N)
 
 (***************************************************************************)
 (* Every field of the recorded result against the exact result.            *)
